@@ -467,6 +467,46 @@ func runC20(c *Ctx) {
 		c.obRF("R20.3", f, "converts-options", conv == 1, "the common UI options are converted for the UI flavour", fmt.Sprintf("%d conversions", conv))
 	}
 
+	// the UI path and the spec sub-path are kept as configured: set from an option argument, copied from another options
+	// struct or defaulted — never trimmed, cleaned or otherwise rewritten when stored (a path of "/" is a path: the
+	// document is then served at the base path itself; rewriting it to "" makes the default "docs" take its place)
+	for _, fn := range p.LibFuncs("rt/middleware") {
+		for _, in := range ownInstrs(fn) {
+			st, ok := in.(*ssa.Store)
+			if !ok {
+				continue
+			}
+			_, _, immT, field := chainRoot(st.Addr)
+			if immT == nil || field != "Path" {
+				continue
+			}
+			switch typeFullName(immT) {
+			case "rt/middleware.uiOptions", "rt/middleware.specOptions", "rt/middleware.RedocOpts", "rt/middleware.RapiDocOpts", "rt/middleware.SwaggerUIOpts":
+			default:
+				continue
+			}
+			okV, bad := allOrigins(st.Val, oConstString(), func(o Origin) bool { _, isP := o.V.(*ssa.Parameter); return isP }, func(o Origin) bool {
+				ld, isLd := derefLoad(o.V)
+				if !isLd {
+					return false
+				}
+				_, _, t2, f2 := chainRoot(ld)
+				return t2 != nil && f2 == "Path"
+			})
+			rewritten := false
+			if bad != nil {
+				if call := asCall(bad.V); call != nil {
+					n := calleeName(&call.Call)
+					rewritten = strings.HasPrefix(n, "strings.") || strings.HasPrefix(n, "path.") || strings.HasPrefix(n, "path/filepath.")
+				}
+			}
+			if rewritten {
+				c.obD("R20.3", st, "configured-path-stored-verbatim", false, "a configured UI / spec path is stored as given", "the path is stored as "+describeOrigin(bad)+": a path made of slashes only becomes empty and is re-defaulted")
+			} else {
+				c.obI("R20.3", st, "configured-path-stored-verbatim", okV, "a configured UI / spec path is stored as given (an option argument, a copy, a default)", "origin "+describeOrigin(bad))
+			}
+		}
+	}
 	// the SpecURL the page references is the configured one, verbatim: it is only ever set from an option argument,
 	// copied from another options struct, or defaulted (a constant, only when it is empty)
 	nSU := 0
